@@ -9,6 +9,7 @@ from ..exact import Unsupported, exact_values
 from ..storejudge import decode_store, expected_post_codes, in_core_domain, STORE_OPS, as_library_sees, UNDERFLOW_KEY
 
 ID = 'C01'
+TECHNIQUE = 'runtime monitoring: boundary monitor records every store event (constructor, call, set_val, indexed assignment; all carriers); oracle = exact quantization (Python ints / Fractions) of the carrier elements, read-back compared as Fractions'
 TITLE = 'store = OVERFLOW(ROUND(v*2^n_frac))'
 RULE = ('store events (constructor / call / set_val / indexed assignment) observed at the API boundary; each element is '
         'compared with refmodel.quantize on the exact value of the carrier element. Key = (signedness, word class, fraction '
